@@ -6,6 +6,7 @@ package main
 import (
 	"fmt"
 	"go/token"
+	"os"
 	"sort"
 	"strings"
 
@@ -990,4 +991,183 @@ func sameLoad(a, b ssa.Value) bool {
 	la, ok1 := a.(*ssa.UnOp)
 	lb, ok2 := b.(*ssa.UnOp)
 	return ok1 && ok2 && la.Op == token.MUL && lb.Op == token.MUL && la.X == lb.X
+}
+
+// HookErrorsPropagate: in the module-level block hooks (functions of the x/<module> packages reachable from
+// BeginBlock / EndBlock) a call to a state-writing repository function whose error is non-nil never leads to a success
+// return or to the next loop iteration: block hooks run on the block's state without a cache, so going on after a
+// partial write commits it. It returns one line per call site: "ok|bad <function> # <callee> @ <pos>".
+func (P *Prog) HookErrorsPropagate(want func(callee *ssa.Function) bool) (oks, bads []string) {
+	S := P.Scopes()
+	reach := P.Reachable(S.Block, nil)
+	writes := map[*ssa.Function]bool{}
+	writesState := func(g *ssa.Function) bool {
+		if v, ok := writes[g]; ok {
+			return v
+		}
+		w := false
+		for f := range P.Reachable([]*ssa.Function{g}, nil) {
+			for _, cs := range P.CallSitesIn(f) {
+				d := cs.Desc()
+				if strings.HasPrefix(d, "coll:") && (cs.Method == "Set" || cs.Method == "Remove" || cs.Method == "Clear") {
+					w = true
+				}
+				if strings.Contains(cs.Callee, "BankKeeper.") || strings.Contains(cs.Callee, "StakingKeeper.Delegate") || strings.Contains(cs.Callee, "StakingKeeper.Unbond") {
+					w = true
+				}
+			}
+		}
+		writes[g] = w
+		return w
+	}
+	var fns []*ssa.Function
+	for fn := range reach {
+		if fn.Pkg == nil || fn.Parent() != nil {
+			continue
+		}
+		p := fn.Pkg.Pkg.Path()
+		if strings.HasPrefix(p, modPath+"/x/") && strings.Count(strings.TrimPrefix(p, modPath+"/x/"), "/") == 0 {
+			fns = append(fns, fn)
+		}
+	}
+	sort.Slice(fns, func(i, j int) bool { return FuncName(fns[i]) < FuncName(fns[j]) })
+	tm := NewTermer()
+	for _, fn := range fns {
+		for _, cs := range P.CallSitesIn(fn) {
+			callees := P.CalleesOfCall(cs.Instr)
+			if len(callees) != 1 || !P.isRepoFunc(callees[0]) || errorResultIndex(callees[0]) < 0 || !writesState(callees[0]) || (want != nil && !want(callees[0])) {
+				continue
+			}
+			v, isVal := cs.Instr.(ssa.Value)
+			if !isVal {
+				continue
+			}
+			// the error value of the call: the call itself, or the extract of its error result
+			var errVals []ssa.Value
+			if callees[0].Signature.Results().Len() == 1 {
+				errVals = append(errVals, v)
+			} else if refs := v.Referrers(); refs != nil {
+				for _, ref := range *refs {
+					if ex, ok := ref.(*ssa.Extract); ok && ex.Index == errorResultIndex(callees[0]) {
+						errVals = append(errVals, ex)
+					}
+				}
+			}
+			returned, tested := false, false
+			for _, ev := range errVals {
+				if refs := ev.Referrers(); refs != nil {
+					for _, ref := range *refs {
+						switch x := ref.(type) {
+						case *ssa.Return:
+							returned = true
+						case *ssa.Store:
+							// a function with defers spills its results: `return f()` stores into the result cell that the
+							// return instruction loads
+							if cell, ok := x.Addr.(*ssa.Alloc); ok && x.Val == ev {
+								if crefs := cell.Referrers(); crefs != nil {
+									for _, cr := range *crefs {
+										if ld, ok := cr.(*ssa.UnOp); ok && ld.Op == token.MUL {
+											if lrefs := ld.Referrers(); lrefs != nil {
+												for _, lr := range *lrefs {
+													if _, isRet := lr.(*ssa.Return); isRet {
+														returned = true
+													}
+												}
+											}
+										}
+									}
+								}
+							}
+						case *ssa.BinOp:
+							if x.Op == token.NEQ || x.Op == token.EQL {
+								tested = true
+							}
+						case *ssa.Phi:
+							// merged into the function's error result (`err = f()` in branches, returned later)
+							if prefs := x.Referrers(); prefs != nil {
+								for _, pr := range *prefs {
+									if _, isRet := pr.(*ssa.Return); isRet {
+										returned = true
+									}
+									if bo, isBo := pr.(*ssa.BinOp); isBo && (bo.Op == token.NEQ || bo.Op == token.EQL) {
+										tested = true
+									}
+								}
+							}
+						}
+					}
+				}
+			}
+			ok := returned || tested
+			if tested {
+				key := tm.Of(v).String()
+				entry := fn.Blocks[0].Instrs[0]
+				callIn := cs.Instr.(ssa.Instruction)
+				ps := AnalyzePaths(fn, []Atom{{Name: "failed", Event: func(in ssa.Instruction) (bool, int8) {
+					// not failed before the call was made (function entry, and each time the call is reached again)
+					if in == entry || in == callIn {
+						return true, F
+					}
+					return false, U
+				}, Cond: func(rel *Term) (bool, bool) {
+					if rel.Op == "==" && len(rel.Args) == 2 && rel.Args[1].Op == "const:nil" {
+						a := rel.Args[0]
+						if strings.HasPrefix(a.Op, "ext:") && len(a.Args) == 1 {
+							a = a.Args[0]
+						}
+						if a.V == v || a.String() == key {
+							return true, false
+						}
+						if a.Op == "phi" { // `err = f()` merged with other assignments before the test
+							hit := false
+							a.Walk(func(x *Term) bool {
+								if x.V == v {
+									hit = true
+								}
+								return !hit
+							})
+							if hit {
+								return true, false
+							}
+						}
+					}
+					return false, false
+				}}})
+				if len(ps.Matched["failed"]) == 0 {
+					ok = false
+				}
+				if os.Getenv("VERIF_DEBUG") != "" {
+					fmt.Fprintln(os.Stderr, "HOOK", FuncName(fn), short(FuncName(callees[0])), "matched", len(ps.Matched["failed"]), "returned", returned, "tested", tested)
+				}
+				phi := func(v map[string]bool) bool { return !v["failed"] }
+				for _, ret := range SuccessReturns(fn) {
+					if bad := ps.Require(ret, phi); len(bad) > 0 {
+						// a return that hands the (on this path non-nil) error back is not a success
+						if ei := errorResultIndex(fn); ei >= 0 && ResultOf(ret, ei) != nil {
+							if e := tm.Of(ResultOf(ret, ei)); e.Op != "const:nil" {
+								continue
+							}
+						}
+						ok = false
+					}
+				}
+				for _, h := range loopHeaders(fn) {
+					for _, p := range h.Preds {
+						if h.Dominates(p) {
+							if bad := ps.RequireOnEdge(p, h, phi); len(bad) > 0 {
+								ok = false
+							}
+						}
+					}
+				}
+			}
+			line := FuncName(fn) + " # a failure of " + short(FuncName(callees[0])) + " aborts the hook"
+			if ok {
+				oks = append(oks, line+" @ "+P.Pos(cs.Pos()))
+			} else {
+				bads = append(bads, line+" @ "+P.Pos(cs.Pos()))
+			}
+		}
+	}
+	return
 }
